@@ -3,8 +3,8 @@
 import json, os, shutil, sys
 prop, m, caught = sys.argv[1], sys.argv[2], sys.argv[3]
 checks = sys.argv[4].split(",") if len(sys.argv) > 4 else [prop]
-rnd = m[:2] if m[:2] in ("r2", "r3", "r4") else ""
-src = "/tmp/mut/%s/%s/%s" % (prop, {"r2": "_out2", "r3": "_out3", "r4": "_out4", "": "_out"}[rnd], m[2:] if rnd else m)
+rnd = m[:2] if m[:2] in ("r2", "r3", "r4", "r5") else ""
+src = "/tmp/mut/%s/%s/%s" % (prop, {"r2": "_out2", "r3": "_out3", "r4": "_out4", "r5": "_out5", "": "_out"}[rnd], m[2:] if rnd else m)
 dst = "/verif/seeded/%s-%s" % (prop, m)
 os.makedirs(dst, exist_ok=True)
 for f in os.listdir(src):
